@@ -1291,10 +1291,19 @@ def run(repo, chk, tier):
     from .c20_thin import check_multi_sampling, check_thinning
 
     check_multi_sampling(repo, chk)
+    # the older statement-level rule T-thin only adds information now: M-sem decides the thinning block by what
+    # multi_sampling returns (mask formula with the old bound, applied to the merged earlier events, bound raised)
+    real_v = chk.violation
+    notes_t = []
+    chk.violation = lambda rule, where, construct, msg, **kw: notes_t.append((rule, construct)) if rule == "T-thin" else real_v(rule, where, construct, msg, **kw)
     try:
         check_thinning(repo, chk)
     except AnalysisError as e:
         chk.info("T-thin: statement-level rule not completed (%s); multi_sampling is decided by M-sem" % e)
+    finally:
+        chk.violation = real_v
+    for rule, construct in notes_t:
+        chk.info("T-thin pattern not recognised (%s); multi_sampling is decided by M-sem" % construct)
     from .c20_thin import check_accept_bound
 
     check_accept_bound(repo, chk)
